@@ -53,7 +53,10 @@ class P(Prop):
         ("TracklibVerif.Props.C17", "TV.C17.shared_world_lawful", "the world of Obs OBJECTS shared between tracks (per-object features list, per-track name->index dict) satisfies the laws for the track in focus whenever its objects carry AT LEAST as many slots as its dict lists (extra slots from other tracks allowed)"),
         ("TracklibVerif.Props.C17", "TV.C17.abscurv_shared", "computeAbsCurv(track k) as one step of a history on shared observations: returns [absc 0..] of the current positions whatever foreign slots the objects carry; track k reads it under abs_curv"),
         ("TracklibVerif.Props.C17", "TV.C17.speed_shared", "estimate_speed(track k) on shared observations: speed column of the current positions and of the absolute times of the CURRENT timestamp fields"),
-        ("TracklibVerif.Props.C17", "TV.C17.positions_and_stamps_unchanged", "for EVERY world (aligned or not, also on exceptions) and every feature operation / entry point: position and stamp of every observation object and the reference list of every track are unchanged"),
+        ("TracklibVerif.Props.C17", "TV.C17.positions_and_stamps_unchanged", "for EVERY world (aligned or not, also on exceptions) and every feature operation / entry point (the method track.estimate_speed() included): position and stamp — the seven calendar fields and the zone field — of every observation object and the reference list of every track are unchanged"),
+        ("TracklibVerif.Props.C17", "TV.C17.speed_method_is_function", "Track.estimate_speed() (the method of core/track.py, no kernel) is estimate_speed(track) of algo/cinematics.py on every world: same result, same final world"),
+        ("TracklibVerif.Props.C17", "TV.C17.zone_not_read", "no operation on features reads the zone field of a stamp: on a world whose zones were rewritten by any function it returns the same value / raises the same exception and ends in the rewritten final world — the elapsed time speed divides by is the difference of the clock readings"),
+        ("TracklibVerif.Props.C17", "TV.C17.same_result_whatever_zones", "two worlds differing in zone fields only give the same result of every operation on features and final worlds differing in zones only"),
         ("TracklibVerif.Props.C17", "TV.C17.class_distance", "which distance the features use per coordinate class: ENU -> sqrt(dE^2+dN^2); Geo -> norm2D of self.toENUCoords(point) (East/North in the local frame at `point`); ECEF -> refused by Obs.distance2DTo, AttributeError on position.distance2DTo"),
         ("TracklibVerif.Props.C17", "TV.C17.enu_class_is_cinematics", "on ENU tracks the class-dispatching programs are computeAbsCurv / estimate_speed of the first model (no exception, third coordinate not read)"),
         ("TracklibVerif.Props.C17", "TV.C17.abscurv_prefix_coords", "T1 for every class with a planimetric distance (ENU, Geo): s[0]=0, s[i+1]=s[i]+d_class(P[i+1],P[i]), abs_curv stored, ds removed; any scalar type (Float with libm included)"),
@@ -78,7 +81,8 @@ class P(Prop):
                 "Differentiator.execute; core/utils.py addListToAF; algo/cinematics.py computeAbsCurv, estimate_speed, computeCurvAbsBetweenTwoPoints; "
                 "core/track.py addAnalyticalFeature (IndexError -> NaN), createAnalyticalFeature (append + index len(dico)), removeAnalyticalFeature, "
                 "get/setObsAnalyticalFeature, getAnalyticalFeature, __setitem__(name, list), estimate_speed, getAbsCurv/getSpeed, length, isSorted, duration, getT, "
-                "__add__, extract, __getitem__(slice), copy (deep copy with memo); core/obs_time.py toAbsTime / __sub__ from the CURRENT fields (C03's ObsTimeG.toAbsG); "
+                "__add__, extract, __getitem__(slice), copy (deep copy with memo), Track.estimate_speed (the method, kernel=None: its own model operation), setTimeZone; "
+                "core/obs_time.py toAbsTime / __sub__ from the CURRENT fields (C03's ObsTimeG.toAbsG), the zone field of ObsTime (carried by every observation object of the world; read by no feature program); "
                 "two models: Model/Cinematics.lean (a track = lists + name->column map) and Model/CinematicsTab.lean (the programs on the Track API of C01's "
                 "Model/Features.lean, instantiated at the specification table and at a WORLD of observation objects shared between tracks); "
                 "Model/CinematicsCoords.lean: the same programs on a track of one coordinate class (ENU / Geo / ECEF), with the dispatch of distance2DTo and the exceptions")
@@ -87,15 +91,17 @@ class P(Prop):
                "single-track stream (`run`): ObsTime.toAbsTime() values are computed by the harness as sec + ms/1000.0; world stream: the model computes them from the timestamp fields (C03's toAbsG)"]
     rule = ("exhaustive: all tracks of 2..4 (quick) / 2..5 (thorough) fixes whose legs are k*(3,4), k in {-1,0,1,2}, with dt in {0,1,2} s, op word 'asas'; "
             "all histories of 2 (quick) / 3 (thorough) operations over {computeAbsCurv, estimate_speed on a track and on a section sharing its observations, "
-            "addAnalyticalFeature(speed), remove abs_curv / speed, in-place edit of a position / of a timestamp field, duration()} on a 4-fix pool; "
+            "addAnalyticalFeature(speed), remove abs_curv / speed, in-place edit of a position / of a timestamp field / of a zone field, duration()} on a 4-fix pool; "
             "random single-track cases: exact lattice tracks at Rat, float tracks (short 1e-6 / long 1e7 legs, repeated positions and timestamps, millisecond stamps) at Float, "
-            "tracks with features present beforehand, op words over {a, s}; "
+            "tracks with features present beforehand, op words over {a = computeAbsCurv, s = estimate_speed(track), S = track.estimate_speed()}; 25 % of these tracks carry zone fields "
+            "(one non-zero zone, two loggers set to different zones, a zone per fix); "
             "random WORLD histories (c17world.py): a pool of 3..8 observations, tracks made by +, extract, slicing (shared Obs objects) and copy(), every entry point "
             "(computeAbsCurv, estimate_speed function / method, addAnalyticalFeature(speed | ds), operate(INTEGRATOR | DIFFERENTIATOR), length, "
             "computeCurvAbsBetweenTwoPoints, getAbsCurv / getSpeed / track[name], removeAnalyticalFeature, track[name] = list, isSorted / duration / getT), in-place edits of "
-            "positions (setX / setObsAnalyticalFeature / attribute) and of timestamp fields (sec, min, ms), directed templates (sum of a computed and a fresh segment, section then "
+            "positions (setX / setObsAnalyticalFeature / attribute) and of timestamp fields (sec, min, ms, zone; setTimeZone), 35 % of the pools stamped with zone fields (one zone, two loggers, per fix), directed templates (sum of a computed and a fresh segment, section then "
             "parent, compute-edit-remove-recompute, time evaluation then field edit then speed, all orders, deep copy) plus free random histories; the oracle keeps its own "
-            "bookkeeping and checks every fresh (or still valid) computation against the CURRENT positions and stamps; "
+            "bookkeeping and checks every fresh (or still valid) computation against the CURRENT positions and stamps, and after EVERY operation every field of every stamp (zone included) of every observation; "
+            "elapsed time = difference of the clock readings; between two stamps of DIFFERENT zones the difference of the instants is accepted as well (the statement does not say which); "
             "COORDINATE CLASSES (c17coords.py): directed walks (Paris, date line, equator, pole, climb) as GeoCoords and as ECEFCoords, then random tracks of 1..8 fixes, 60 % GeoCoords "
             "(steps 0 / 1e-8 .. 1 degree along a parallel, a meridian or oblique, heights -400..9000 m with jumps, longitudes wrapping at +-180, latitudes up to the poles), 20 % ENUCoords, 20 % ECEFCoords, "
             "op words over {computeAbsCurv, estimate_speed, computeCurvAbsBetweenTwoPoints, addAnalyticalFeature(ds), Obs.distance2DTo of consecutive fixes}, features present beforehand; the oracle recomputes "
@@ -122,7 +128,7 @@ class P(Prop):
         n = 5 if tier == "thorough" else 4
         return ["all tracks of 2..%d fixes with legs k*(3,4), k in {-1,0,1,2} and elapsed times in {0,1,2} s per leg (op word asas)" % n,
                 "all histories of %d operations over {computeAbsCurv / estimate_speed on a 4-fix track and on a 2-fix section sharing its observations, "
-                "addAnalyticalFeature(speed), remove abs_curv, remove speed, in-place edit of a position, in-place edit of a timestamp field, duration()}"
+                "addAnalyticalFeature(speed), remove abs_curv, remove speed, in-place edit of a position, in-place edit of a timestamp field, duration(), in-place edit of a zone field}"
                 % (3 if tier == "thorough" else 2)]
 
     def cases(self, rng, tier):
